@@ -130,6 +130,14 @@ theorem late_arrival_counterexample :
     ∧ noCapHit c St.init (ops ++ [a]) = true := by
   decide
 
+/-- The expiry heap is modelled as a list: the GC loop's effect on every `(source, key)` vector is
+the per-entry action iterated as often as that `(source, key)` was popped, so any other pop order
+(any permutation of the expired entries) leaves every vector the same — for the repaired and for
+the legacy action alike. -/
+theorem cleanup_independent_of_heap_order (act : List Ev → List Ev) (qs qs' : List (Int × Nat × Nat))
+    (hp : qs.Perm qs') (b : List (SK × List Ev)) (sk : SK) :
+    get (gcFold act qs b) sk = get (gcFold act qs' b) sk := gcFold_perm act qs qs' hp b sk
+
 /-- An event without the join-key field is not an arrival at all (`add_event` returns `None`
 before any state change) — modelled by not being an `Arr`; an arrival from a source that is not
 joined is never buffered. -/
